@@ -4,6 +4,7 @@
 #define MuscleWaitCondition_h
 
 #include "support/NotCopyable.h"
+#include "support/VerifHooks.h"
 #include "util/TimeUtilityFunctions.h"  // for MUSCLE_TIME_NEVER
 
 #ifdef MUSCLE_SINGLE_THREAD_ONLY
@@ -80,6 +81,7 @@ public:
       uint32 junk;
       uint32 & retCounter = optRetNotificationsCount ? *optRetNotificationsCount : junk;
       retCounter = 0;
+      if (MUSCLE_VERIF_YIELD(muscle::verif::YIELD_WC_WAIT, this, (wakeupTime != MUSCLE_TIME_NEVER)) == 1) return B_TIMED_OUT;
       return (wakeupTime == MUSCLE_TIME_NEVER) ? WaitAux(retCounter) : WaitUntilAux(wakeupTime, retCounter);
    }
 
@@ -92,7 +94,11 @@ public:
      *       be passed to next caller of Wait() for that caller to examine, if it cares to.
      * @returns B_NO_ERROR on success, or another value on failure.
      */
+#ifdef MUSCLE_VERIF_HOOKS
+   status_t Notify(uint32 increaseBy=1) const {const status_t verifRet = NotifyAux(increaseBy); (void) MUSCLE_VERIF_YIELD(muscle::verif::YIELD_WC_NOTIFY, this, (long)increaseBy); return verifRet;}
+#else
    status_t Notify(uint32 increaseBy=1) const {return NotifyAux(increaseBy);}
+#endif
 
 #if !defined(MUSCLE_AVOID_CPLUSPLUS11)
    /** Returns a reference to our back-end condition-variable implementation object.  Don't call this method from code that is meant to remain portable! */
